@@ -320,7 +320,13 @@ class Interp:
 
     # -- symbols --------------------------------------------------------
     def sym_for(self, st, name, ty):
-        name = self.sym_names.get(name, name)
+        if name in self.sym_names:
+            name = self.sym_names[name]
+        else:
+            for k, v in self.sym_names.items():     # "re:<regex>" keys: any spelling of the same quantity
+                if k.startswith("re:") and re.search(k[3:], name):
+                    name = v
+                    break
         if name not in st.zone.syms:
             r = int_range(ty or "") or (-INF, INF)
             lo, hi = r
@@ -878,6 +884,15 @@ class Interp:
             return self.inline_call(st, self.facts.bodies[fnv.path], [fnv] + list(actual))
         if fnv.k == "fn" and fnv.path in self.facts.bodies:
             return self.inline_call(st, self.facts.bodies[fnv.path], list(actual))
+        if fnv.k == "fn" and fnv.path and re.match(r"^(std|core|alloc)::", fnv.path):
+            # a std function passed by name (`.map(Ordering::reverse)`): same summaries as a direct call
+            k = {"fn": fnv.path, "res": fnv.path, "krate": "core", "res_krate": "core", "name": fnv.path.rsplit("::", 1)[-1]}
+            try:
+                r = self.summary(st, self.cur_body, k, fnv.path, k["name"], None, list(actual), None, None)
+            except Exception:
+                r = None
+            if r:
+                return r
         label = short(fnv.path) if fnv.path else "?"
         return [(st, mk_obj("%s(%s)" % (label, ", ".join(show(a) for a in actual))))]
 
@@ -1003,6 +1018,23 @@ class Interp:
                     return [(st, mk_obj("%s(%s, %s)" % (meth, show(xs[0]), show(xs[1])), ity))]
                 if meth in ASCII_CLASSES and len(xs) == 1:
                     return self.in_ranges(st, xs[0].lin, ASCII_CLASSES[meth])
+        # cmp::Ordering helpers on concrete variants (documented value tables)
+        if std and args and args[0].k == "variant" and args[0].vname in ("Less", "Equal", "Greater") \
+                and (owner.startswith("std::cmp::Ordering") or res.startswith("std::cmp::Ordering::") or res.startswith("core::cmp::Ordering::")):
+            o = args[0].vname
+            mkord = lambda n: V("variant", adt="std::cmp::Ordering", vidx={"Less": 255, "Equal": 0, "Greater": 1}[n], vname=n, fields={})
+            if name == "reverse" and len(args) == 1:
+                return [(st, mkord({"Less": "Greater", "Equal": "Equal", "Greater": "Less"}[o]))]
+            tests = {"is_eq": ("Equal",), "is_ne": ("Less", "Greater"), "is_lt": ("Less",), "is_gt": ("Greater",),
+                     "is_le": ("Less", "Equal"), "is_ge": ("Greater", "Equal")}
+            if name in tests and len(args) == 1:
+                return [(st, mk_const(1 if o in tests[name] else 0, "bool"))]
+            if name == "then" and len(args) == 2:
+                return [(st, args[1] if o == "Equal" else args[0])]
+            if name == "then_with" and len(args) == 2:
+                if o != "Equal":
+                    return [(st, args[0])]
+                return self.apply_fn(st, args[1], [])
         # Option / Result helpers on concrete variants
         if std and owner.startswith("std::option::Option") and args and args[0].k == "variant":
             v = args[0]
